@@ -46,6 +46,12 @@ func c15Corpus() []namedHist {
 			fin(1), bad("dead-parent", 50, 2), bad("dead-parent", 51, 0), bad("prune-dead", 5, 0), bad("duplicate", 3, 0),
 			bad("wrong-number", 52, 3), bad("unknown-parent", 53, 0), bad("prune-root", 0, 0), bad("prune-unknown", 54, 0),
 			add(6, 3, S, 0), add(7, 4, P, 0), fin(3)}},
+		// additions refused by the slot-type check alone (valid parent, number, new hash) must leave no trace:
+		// below a leaf (would replace it in Leaves / become best), below an inner block, below the root
+		{"refused-additions-leave-no-trace", 0, []op{add(1, 0, P, 0), add(2, 1, S, 0), add(3, 0, S, 1),
+			bad("no-digest", 60, 2), bad("first-digest-not-preruntime", 61, 2), bad("malformed-predigest", 62, 3), bad("malformed-predigest", 63, 1),
+			bad("no-digest", 64, 0), bad("wrong-number", 65, 2), bad("wrong-number", 66, 2), add(4, 2, P, 0), bad("first-digest-not-preruntime", 67, 4),
+			fin(1), bad("no-digest", 68, 1), add(5, 4, V, 2), fin(4)}},
 		// best chain (2 primaries, height 2) is shorter than a secondary-only fork of height 4:
 		// blocks at numbers 3 and 4 exist and GetHashesAtNumber must list them
 		{"by-number-above-best-chain-head", 0, []op{add(1, 0, P, 0), add(2, 1, P, 0), add(3, 0, S, 0), add(4, 3, S, 0), add(5, 4, V, 0), add(6, 5, S, 0)}},
@@ -74,6 +80,12 @@ func c15Floors(r *vcommon.Run) {
 	r.Floor("bad_duplicate", 50)
 	r.Floor("bad_wrong-number", 50)
 	r.Floor("bad_unknown-parent", 50)
+	r.Floor("bad_no-digest", 50)
+	r.Floor("bad_first-digest-not-preruntime", 50)
+	r.Floor("bad_malformed-predigest", 50)
+	r.Floor("refused_adds_below_leaf", 50)
+	r.Floor("refused_blocks_tracked", 200)
+	r.Floor("prunes_after_refused_add", 50)
 	r.Floor("prunes_in_sibling_fan_of_8_or_more", 10)
 	r.Floor("prunes_of_block_4_or_more_below_root", 20)
 }
@@ -97,6 +109,14 @@ func exhC15(c *vcommon.Case, pv []int, deep bool) {
 	if e.viol > 0 {
 		return
 	}
+	// additions that must be refused, on the complete tree: below a leaf, below any block
+	for i, kind := range badDigestKinds {
+		ls := e.m.leaves()
+		e.exec(bad(kind, n+20+i, ls[c.R.Intn(len(ls))].id))
+		e.exec(bad(kind, n+30+i, c.R.Intn(n)))
+	}
+	e.exec(bad("wrong-number", n+40, c.R.Intn(n)))
+	e.exec(bad("wrong-number", n+41, c.R.Intn(n)))
 	if n == 1 {
 		e.exec(bad("prune-root", 0, 0))
 		e.exec(bad("prune-unknown", 1, 0))
@@ -107,6 +127,10 @@ func exhC15(c *vcommon.Case, pv []int, deep bool) {
 		e := newEnv(c, root)
 		e.structural, e.checkAdds = true, false
 		e.run(adds)
+		// refused additions on both sides of the coming finalisation: Prune must not report them,
+		// and they must not survive below the new root
+		e.exec(bad(badDigestKinds[f%3], n+50, c.R.Intn(n)))
+		e.exec(bad(badDigestKinds[(f+1)%3], n+51, f))
 		e.exec(fin(f))
 		if f == 1 && n <= 6 {
 			c.Sample(map[string]any{"history": e.h.String(), "blocks_after": e.mnames(e.m.sorted()), "leaves_after": e.mnames(e.m.leaves())})
@@ -139,6 +163,7 @@ func exhC15(c *vcommon.Case, pv []int, deep bool) {
 		e.exec(add(n, p.id, c.R.Intn(3), c.R.Intn(3)))
 		e.exec(add(n+1, f, c.R.Intn(3), c.R.Intn(3)))
 		e.exec(bad("duplicate", n, 0))
+		e.exec(bad(badDigestKinds[(f+2)%3], n+13, n+1))
 		e.exec(bad("wrong-number", n+11, p.id))
 		e.exec(bad("unknown-parent", n+12, 0))
 		e.exec(fin(n + 1))
@@ -158,6 +183,8 @@ func randC15(c *vcommon.Case) {
 	hubs := []int{0}
 	next := 1
 	depth := func(b *mBlock) int { return len(e.m.chain(b)) - 1 }
+	badSeq := 5000
+	badLabel := func() int { badSeq++; return badSeq }
 	for adds := 0; adds < target && e.viol == 0; {
 		live := e.m.sorted()
 		switch x := c.R.Intn(100); {
@@ -193,7 +220,7 @@ func randC15(c *vcommon.Case) {
 			e.exec(add(next, p.id, mk, c.R.Intn(3)))
 			next++
 			adds++
-		case x < 88:
+		case x < 86:
 			if len(live) < 2 {
 				continue
 			}
@@ -213,9 +240,17 @@ func randC15(c *vcommon.Case) {
 			}
 			c.Distinct(fmt.Sprintf("rand-prune:%s", e.h.String()))
 		default:
-			switch k := c.R.Intn(6); {
+			switch k := c.R.Intn(10); {
+			case k >= 6:
+				// refused by the slot-type check alone; half of them below a leaf
+				p := live[c.R.Intn(len(live))]
+				if c.R.Bool() {
+					ls := e.m.leaves()
+					p = ls[c.R.Intn(len(ls))]
+				}
+				e.exec(bad(badDigestKinds[c.R.Intn(3)], badLabel(), p.id))
 			case k == 0 && len(e.dead) > 0:
-				e.exec(bad("dead-parent", next+5000, e.dead[c.R.Intn(len(e.dead))].id))
+				e.exec(bad("dead-parent", badLabel(), e.dead[c.R.Intn(len(e.dead))].id))
 			case k == 1 && len(e.dead) > 0:
 				e.exec(bad("prune-dead", e.dead[c.R.Intn(len(e.dead))].id, 0))
 			case k == 2 && len(live) > 1:
@@ -224,9 +259,9 @@ func randC15(c *vcommon.Case) {
 					e.exec(bad("duplicate", b.id, 0))
 				}
 			case k == 3:
-				e.exec(bad("wrong-number", next+5000, live[c.R.Intn(len(live))].id))
+				e.exec(bad("wrong-number", badLabel(), live[c.R.Intn(len(live))].id))
 			case k == 4:
-				e.exec(bad("unknown-parent", next+5000, 0))
+				e.exec(bad("unknown-parent", badLabel(), 0))
 			default:
 				e.exec(bad("prune-unknown", next, 0))
 			}
